@@ -25,7 +25,7 @@ EXPLANATION = (
     "added on every path to the next section, compact arrays get sub-index 0 (UNSIGNED8) and the template at 1, name "
     "lists cover 1..NrOfEntries, comments/bit rate/baud-rate options/DeviceInfo stores; R11 implicit array members "
     "(sub-indices 1..255, template = sub-index 1, attribute list, parent link), copy_variable changes only name and "
-    "sub-index, the indirect-type threshold leaves every standard type code alone. R12 no class-level mutable object is mutated in place by instances (each node/client/map/dictionary has its own state)."
+    "sub-index, the indirect-type threshold leaves every standard type code alone. R12 [R13: ODVariable.__len__ gives every data type its width and is never 0 (shared with C04.R5)] no class-level mutable object is mutated in place by instances (each node/client/map/dictionary has its own state)."
 )
 ASSUMPTIONS = [
     "not decided: fidelity for every EDS text; configparser semantics are the trusted base",
@@ -494,6 +494,9 @@ def run(chk):
     c = [x for x in ast.walk(io.node) if isinstance(x, ast.Call) and dotted(x.func) == "eds.import_eds"]
     chk.check(len(c) == 1 and [src(a) for a in c[0].args] == ["source", "node_id"], "R9", f"{OD}:import_od | source and node id passed on", io.loc(), "")
 
+    # ------------------------------------------------------------------ R13 ODVariable.__len__ per data type (name/index lookups select by truthiness of the stored objects; shared with C04.R5)
+    from . import c04 as _c04len
+    _c04len.bit_length_by_type(chk, "R13")
     # ------------------------------------------------------------------ R12 instances are independent (shared clause)
     from . import shared as _shared
     _shared.isolation(chk, "R12", rels=['canopen/objectdictionary/__init__.py', 'canopen/objectdictionary/eds.py'])
@@ -543,6 +546,24 @@ def implicit_members(chk, rule: str):
     ag = repo.func(OD, "ODArray.__getitem__", f"{chk.prop}.{rule}")
     fa = ff_for(chk, ag, f"{chk.prop}.{rule}")
     key_p = ag.params[1]
+    arr = repo.cls(OD, "ODArray", f"{chk.prop}.{rule}")
+    # membership must agree with __getitem__ (LocalNode._find_object tests `subindex not in obj`): Mapping.__contains__ does, by calling it
+    cont = arr.methods.get("__contains__")
+    if cont is not None:
+        via_getitem = any(isinstance(x, ast.Subscript) and dotted(x.value) == "self" for x in ast.walk(cont.node)) or \
+            any(isinstance(x, ast.Call) and dotted(x.func) in ("self.__getitem__", "super().__contains__") for x in ast.walk(cont.node))
+        chk.check(via_getitem, rule, f"{OD}:ODArray.__contains__ | membership agrees with __getitem__", cont.loc(),
+                  "ODArray.__contains__ looks only at the explicitly described members: `sub in array` is False for the implicit members that array[sub] provides, "
+                  "so the server refuses them with 0x06090011")
+    else:
+        chk.ok(rule, f"{OD}:ODArray.__contains__ | membership agrees with __getitem__", f"{OD}:{arr.node.lineno}", "inherited from Mapping (calls __getitem__)")
+    cps_ = [n for n in own_nodes(ag.node) if isinstance(n, ast.Assign) and isinstance(n.value, ast.Call) and dotted(n.value.func) in ("copy.copy", "copy.deepcopy", "copy")]
+    for n in cps_:
+        chk.bad(rule, f"{OD}:ODArray.__getitem__ | implicit member takes only the listed attributes of sub-index 1", ag.loc(n),
+                f"`{src(n)}` clones sub-index 1 as a whole: the implicit member also inherits its parameter value (and raw texts), so a read of an undescribed member "
+                f"returns sub-index 1's ParameterValue instead of the default / 'no value' abort")
+    if cps_:
+        return
     mk = [n for n in own_nodes(ag.node) if isinstance(n, ast.Assign) and isinstance(n.value, ast.Call) and (dotted(n.value.func) or "").endswith("ODVariable")]
     chk.floor(rule, len(mk), 1, "implicit member construction in ODArray.__getitem__")
     for n in mk:
